@@ -17,10 +17,22 @@ import (
 	"time"
 )
 
-const (
-	verifDir = "/verif"
-	repoDir  = "/repo"
+const verifDir = "/verif"
+
+// repoDir is the tree under test: /repo for every registered command. VCHECK_REPO
+// points the same check at a scratch worktree (used only to try seeded changes
+// without touching /repo); VCHECK_OUT then receives evidence and replay files.
+var (
+	repoDir = envOr("VCHECK_REPO", "/repo")
+	outDir  = envOr("VCHECK_OUT", verifDir)
 )
+
+func envOr(k, d string) string {
+	if v := os.Getenv(k); v != "" {
+		return v
+	}
+	return d
+}
 
 type violation struct {
 	Property string          `json:"property"`
@@ -199,7 +211,7 @@ func main() {
 
 	// classify violations
 	findings := loadFindings()
-	replayDir := filepath.Join(verifDir, "replays", id)
+	replayDir := filepath.Join(outDir, "replays", id)
 	os.RemoveAll(replayDir)
 	nNew := 0
 	knownSeen := map[int]bool{}
@@ -250,9 +262,9 @@ func main() {
 	if rep.Assume == nil {
 		ev["assumptions"] = []string{}
 	}
-	os.MkdirAll(filepath.Join(verifDir, "evidence"), 0o755)
+	os.MkdirAll(filepath.Join(outDir, "evidence"), 0o755)
 	b, _ := json.MarshalIndent(ev, "", " ")
-	if err := os.WriteFile(filepath.Join(verifDir, "evidence", id+".json"), append(b, '\n'), 0o644); err != nil {
+	if err := os.WriteFile(filepath.Join(outDir, "evidence", id+".json"), append(b, '\n'), 0o644); err != nil {
 		fatal(2, "evidence: %v", err)
 	}
 	fmt.Printf("%s %s: engine=%s states=%d transitions=%d validated=%d exhaustive=%v violations=%d known=%d wall=%.1fs\n",
